@@ -366,6 +366,48 @@ def replay_chain(src, r, idx):
     return recipe, None
 
 
+def order_chain(src, r, idx):
+    """two undo files recorded one after the other: the older one must be refused while the newer changes are still on the device
+    (the recorded superblock differs from the device's in fields other than UUID / times / write counter), and both restore in order"""
+    os.makedirs(WORK, exist_ok=True)
+    img = os.path.join(WORK, "ord_%d.img" % idx)
+    ua, ub = os.path.join(WORK, "ord_%d.A" % idx), os.path.join(WORK, "ord_%d.B" % idx)
+    for f in (img, ua, ub):
+        if os.path.exists(f):
+            os.unlink(f)
+    T = lambda name: os.path.join(src, name)
+    env = e2v.tool_env(src, E2FSPROGS_UNDO_DIR=WORK, E2FSPROGS_FAKE_TIME="1700000000")
+    feats = r.choice([["-t", "ext2", "-O", "none"], ["-t", "ext2", "-O", "none", "-b", "2048"], ["-t", "ext2", "-O", "^resize_inode,^dir_index"]])
+    e2v.sh([T("misc/mke2fs"), "-q", "-F"] + feats + [img, "8M"], env=env, timeout=120)
+    s0 = open(img, "rb").read()
+    second = r.choice([["-c", "20"], ["-e", "remount-ro"], ["-m", "1"], ["-r", "77"], ["-E", "stride=4"]])
+    log = []
+    for und, args in ((ua, ["-L", "first"]), (ub, second)):
+        rc, out = e2v.sh([T("misc/tune2fs"), "-z", und] + args + [img], env=env, timeout=120)
+        log.append({"cmd": "tune2fs -z %s %s" % (os.path.basename(und)[-1], " ".join(args)), "rc": rc})
+    s2 = open(img, "rb").read()
+    rc, out = e2v.sh([T("misc/e2undo"), ua, img], env=env, timeout=120)
+    log.append({"cmd": "e2undo A (B still applied)", "rc": rc})
+    recipe = {"kind": "undo files applied out of order", "mke2fs": feats, "steps": log}
+    why = None
+    if open(img, "rb").read() != s2:
+        why = "e2undo of the older undo file changed the device although the newer changes are still applied (exit %d)" % rc
+    elif rc == 0:
+        why = "e2undo of the older undo file reports success while the device does not match its recorded state"
+    else:
+        rc1, _ = e2v.sh([T("misc/e2undo"), ub, img], env=env, timeout=120)
+        rc2, _ = e2v.sh([T("misc/e2undo"), ua, img], env=env, timeout=120)
+        log += [{"cmd": "e2undo B", "rc": rc1}, {"cmd": "e2undo A", "rc": rc2}]
+        if rc1 or rc2:
+            why = "undo files applied in order were refused (exit %d, %d)" % (rc1, rc2)
+        elif open(img, "rb").read() != s0:
+            why = "after undoing B then A the device differs from its original contents"
+    for f in (img, ua, ub):
+        if os.path.exists(f):
+            os.unlink(f)
+    return recipe, why
+
+
 def killed_run(src, r, idx):
     """a recording run that ends abnormally (SIGKILL at its k-th device write, no exit handlers):
     e2undo must still restore every block and may only mark the filesystem as needing a check"""
@@ -523,6 +565,7 @@ def run(res, replay=None):
         nsp = 4 if tier == "quick" else 120
         outs += list(ex.map(lambda i: tail_chain(src, e2v.rng(seed, "c12tail", i), i), range(nsp)))
         outs += list(ex.map(lambda i: replay_chain(src, e2v.rng(seed, "c12replay", i), i), range(nsp)))
+        outs += list(ex.map(lambda i: order_chain(src, e2v.rng(seed, "c12order", i), i), range(nsp)))
     nch = len(outs)
     for i, (recipe, why) in enumerate(outs):
         if i < 2:
